@@ -163,7 +163,8 @@ class C20:
     cases = {"quick": 1, "thorough": 30}
     rule = ("per case a generated user hierarchy (3-7 classes, depth <=3, up to two parents each, an interface with "
             "implementer, a two-level exception chain) is compiled into a context; the universe is every plain class of that "
-            "context (built-in and user), List/Set/Dict/Tuple instantiations to depth 2, function types, the nullable variant of "
+            "context (built-in and user, incl. user classes whose parents are Collection[Int] / Collection[Str] and one class that reaches "
+            "Collection twice through two parents), List/Set/Dict/Tuple/Collection instantiations to depth 2, function types, the nullable variant of "
             "each, unions of two members (all pairs over a window of the classes in quick, all classes in thorough), unions with "
             "a nullable member and both bracketings of unions of three. The worker tabulates is_superset_of for ALL ordered "
             "pairs, twice, from freshly constructed names (second time union members inserted in reverse). Oracle on the "
